@@ -820,6 +820,14 @@ def standin(tier, seed):
                 inc = safe_join(g.body(1, False, n=rng.randint(1, 3), allow_blocks=False))
                 if rng.random() < 0.4:
                     inc.insert(0, ("autoescape", rng.choice([None, "shout", "url_escape"])))
+                # (nested: an include inside the included file, each file with its own autoescape, and something after the inner include)
+                inc2 = safe_join(g.body(1, False, n=rng.randint(1, 2), allow_blocks=False))
+                if rng.random() < 0.5:
+                    inc2.insert(0, ("autoescape", rng.choice([None, "shout", "xhtml_escape"])))
+                nested = rng.random() < 0.5
+                if nested:
+                    inc.insert(rng.randint(1 if inc and inc[0][0] == "autoescape" else 0, max(len(inc) - 1, 1 if inc and inc[0][0] == "autoescape" else 0)), ("include", "inc2.txt"))
+                    inc = safe_join(inc)
                 base = g.body(0, False, n=rng.randint(2, 5))
                 base.insert(rng.randint(0, len(base)), ("block", "main", g.body(1, False, n=2, allow_blocks=False)))
                 if rng.random() < 0.6:
@@ -827,10 +835,14 @@ def standin(tier, seed):
                 base = safe_join(base)
                 names_in_base = sorted(_block_names(base))
 
-                def child_tree(parent):
+                def child_tree(parent, may_include=False):
                     t = [("extends", parent)]
                     for bn in rng.sample(names_in_base, rng.randint(0, len(names_in_base))):
-                        t.append(("block", bn, g.body(1, False, n=rng.randint(0, 3), allow_blocks=False)))
+                        bb = g.body(1, False, n=rng.randint(0, 3), allow_blocks=False)
+                        if may_include and rng.random() < 0.4:
+                            bb.insert(rng.randint(0, max(len(bb) - 1, 0)), ("include", "inc.txt"))     # an include inside an overriding block, with the block's text after it
+                            bb = safe_join(bb)
+                        t.append(("block", bn, bb))
                         t.append(g.text())                       # text outside blocks in a child is not part of the output
                     if rng.random() < 0.3:
                         t.append(("autoescape", rng.choice([None, "shout"])))
@@ -838,7 +850,7 @@ def standin(tier, seed):
                         t.append(("block", "unused", [("text", "never shown")]))
                     rng.shuffle(t)
                     return safe_join(t)
-                files = {"base.html": base, "inc.txt": inc, "mid.html": child_tree("base.html")}
+                files = {"base.html": base, "inc.txt": inc, "inc2.txt": inc2, "mid.html": child_tree("base.html", may_include=True)}
                 files["sub/leaf.html"] = child_tree("../mid.html")
                 name = rng.choice(["base.html", "mid.html", "sub/leaf.html"])
                 texts = {n: render(t, rng) for n, t in files.items()}
